@@ -38,7 +38,12 @@ fn process_dec(token: Token) -> Result<Expression, ParserError> {
                 Ok(Expression::DoubleLiteral(u as f64))
             }
         }
-        Err(e) => Err(e.into()),
+        // too many digits for a whole number: the literal is a double
+        Err(_) => match token.to_string().parse::<f64>() {
+            Ok(f) if f.is_finite() => Ok(Expression::DoubleLiteral(f)),
+            Ok(_) => Err(ParserError::Overflow),
+            Err(e) => Err(e.into()),
+        },
     }
 }
 
